@@ -218,6 +218,138 @@ impl AsRef<str> for Hay {
     }
 }
 
+/// A haystack that stores its bytes inline and is handed to the search by value (what
+/// `[u8; N]` or an inline small-string type is to a caller): moving the search iterator moves
+/// the bytes with it.
+#[derive(Clone, Copy)]
+pub struct InlineHay {
+    pub buf: [u8; INLINE_MAX],
+    pub len: usize,
+}
+
+pub const INLINE_MAX: usize = 64;
+
+impl InlineHay {
+    pub fn new(b: &[u8]) -> Option<Self> {
+        if b.len() > INLINE_MAX {
+            return None;
+        }
+        let mut buf = [0u8; INLINE_MAX];
+        buf[..b.len()].copy_from_slice(b);
+        Some(InlineHay { buf, len: b.len() })
+    }
+}
+
+impl AsRef<[u8]> for InlineHay {
+    fn as_ref(&self) -> &[u8] {
+        &self.buf[..self.len]
+    }
+}
+
+impl AsRef<str> for InlineHay {
+    fn as_ref(&self) -> &str {
+        // Only constructed from valid UTF-8 for the char-wise variant (asserted by the caller).
+        unsafe { std::str::from_utf8_unchecked(&self.buf[..self.len]) }
+    }
+}
+
+/// Overwrite the part of the stack a just-returned call used (so that nothing read from there
+/// later is right by accident).
+#[inline(never)]
+pub fn scribble_stack() {
+    let mut junk = [0xA5u8; 2048];
+    std::hint::black_box(&mut junk);
+}
+
+/// How a caller takes the matches out of a search iterator: `pre` calls of `next()` first, then
+/// one of the other `Iterator` methods. Both entry points are consumed the same way and must
+/// give the same answer.
+pub const N_STYLES: u8 = 9;
+
+#[derive(Clone, Debug, PartialEq, Eq)]
+pub struct Consumed {
+    pub pre: Vec<Mt>,
+    pub rest: Vec<Mt>,
+    pub n: usize,
+}
+
+pub fn style_name(style: u8) -> &'static str {
+    match style % N_STYLES {
+        0 => "fold",
+        1 => "count",
+        2 => "last",
+        3 => "for_each",
+        4 => "nth(1) loop",
+        5 => "skip(1).fold",
+        6 => "by_ref().take(2).fold, then next()",
+        7 => "size_hint, then fold",
+        _ => "step_by(2).for_each",
+    }
+}
+
+pub fn consume<I: Iterator<Item = Mt>>(mut it: I, pre: usize, style: u8) -> Consumed {
+    let mut c = Consumed { pre: vec![], rest: vec![], n: 0 };
+    for _ in 0..pre {
+        match it.next() {
+            Some(m) => c.pre.push(m),
+            None => return c,
+        }
+    }
+    match style % N_STYLES {
+        0 => {
+            c.rest = it.fold(vec![], |mut v, m| {
+                v.push(m);
+                v
+            });
+            c.n = c.rest.len();
+        }
+        1 => c.n = it.count(),
+        2 => {
+            c.rest = it.last().into_iter().collect();
+        }
+        3 => {
+            let mut v = vec![];
+            it.for_each(|m| v.push(m));
+            c.n = v.len();
+            c.rest = v;
+        }
+        4 => {
+            while let Some(m) = it.nth(1) {
+                c.rest.push(m);
+            }
+        }
+        5 => {
+            c.rest = it.skip(1).fold(vec![], |mut v, m| {
+                v.push(m);
+                v
+            });
+        }
+        6 => {
+            c.rest = it.by_ref().take(2).fold(vec![], |mut v, m| {
+                v.push(m);
+                v
+            });
+            for m in it {
+                c.rest.push(m);
+                c.n += 1;
+            }
+        }
+        7 => {
+            let _ = it.size_hint();
+            c.rest = it.fold(vec![], |mut v, m| {
+                v.push(m);
+                v
+            });
+        }
+        _ => {
+            let mut v = vec![];
+            it.step_by(2).for_each(|m| v.push(m));
+            c.rest = v;
+        }
+    }
+    c
+}
+
 pub type ByteSrc<'a> = Box<dyn Iterator<Item = u8> + 'a>;
 pub type MatchIter<'a> = Box<dyn Iterator<Item = Mt> + 'a>;
 
@@ -228,6 +360,12 @@ pub trait DynPma: Send + Sync {
     /// Lazy byte-iterator search (standard kind only). For the char-wise variant the caller
     /// guarantees that the source yields valid UTF-8.
     fn open_iter<'a>(&'a self, m: Method, src: ByteSrc<'a>) -> MatchIter<'a>;
+    /// Slice search of a haystack that is stored inline and passed by value.
+    fn open_slice_inline<'a>(&'a self, m: Method, hay: InlineHay) -> MatchIter<'a>;
+    /// Slice / byte-iterator search consumed through `consume` on the concrete iterator type
+    /// (a boxed iterator would hide overridden `fold`, `count`, `nth`, ...).
+    fn consume_slice(&self, m: Method, hay: Hay, pre: usize, style: u8) -> Consumed;
+    fn consume_iter(&self, m: Method, src: ByteSrc<'_>, pre: usize, style: u8) -> Consumed;
     fn serialize(&self) -> Vec<u8>;
     fn same(&self, other: &dyn DynPma) -> bool;
     fn clone_box(&self) -> Box<dyn DynPma>;
@@ -265,6 +403,34 @@ impl<V: SimVal> DynPma for Bw<V> {
                 Box::new(self.0.find_overlapping_no_suffix_iter_from_iter(src).map(mt))
             }
             Method::Leftmost => panic!("harness: no byte-iterator entry point for leftmost"),
+        }
+    }
+    fn open_slice_inline<'a>(&'a self, m: Method, hay: InlineHay) -> MatchIter<'a> {
+        let it: MatchIter<'a> = match m {
+            Method::Find => Box::new(self.0.find_iter(hay).map(mt)),
+            Method::Overlapping => Box::new(self.0.find_overlapping_iter(hay).map(mt)),
+            Method::NoSuffix => Box::new(self.0.find_overlapping_no_suffix_iter(hay).map(mt)),
+            Method::Leftmost => Box::new(self.0.leftmost_find_iter(hay).map(mt)),
+        };
+        scribble_stack();
+        it
+    }
+    fn consume_slice(&self, m: Method, hay: Hay, pre: usize, style: u8) -> Consumed {
+        match m {
+            Method::Find => consume(self.0.find_iter(hay).map(mt), pre, style),
+            Method::Overlapping => consume(self.0.find_overlapping_iter(hay).map(mt), pre, style),
+            Method::NoSuffix => consume(self.0.find_overlapping_no_suffix_iter(hay).map(mt), pre, style),
+            Method::Leftmost => consume(self.0.leftmost_find_iter(hay).map(mt), pre, style),
+        }
+    }
+    fn consume_iter(&self, m: Method, src: ByteSrc<'_>, pre: usize, style: u8) -> Consumed {
+        {
+            match m {
+                Method::Find => consume(self.0.find_iter_from_iter(src).map(mt), pre, style),
+                Method::Overlapping => consume(self.0.find_overlapping_iter_from_iter(src).map(mt), pre, style),
+                Method::NoSuffix => consume(self.0.find_overlapping_no_suffix_iter_from_iter(src).map(mt), pre, style),
+                Method::Leftmost => panic!("harness: no byte-iterator entry point for leftmost"),
+            }
         }
     }
     fn serialize(&self) -> Vec<u8> {
@@ -319,6 +485,36 @@ impl<V: SimVal> DynPma for Cw<V> {
                 Method::NoSuffix => {
                     Box::new(self.0.find_overlapping_no_suffix_iter_from_iter(src).map(mt))
                 }
+                Method::Leftmost => panic!("harness: no byte-iterator entry point for leftmost"),
+            }
+        }
+    }
+    fn open_slice_inline<'a>(&'a self, m: Method, hay: InlineHay) -> MatchIter<'a> {
+        assert!(std::str::from_utf8(AsRef::<[u8]>::as_ref(&hay)).is_ok(), "harness: char-wise haystack must be UTF-8");
+        let it: MatchIter<'a> = match m {
+            Method::Find => Box::new(self.0.find_iter(hay).map(mt)),
+            Method::Overlapping => Box::new(self.0.find_overlapping_iter(hay).map(mt)),
+            Method::NoSuffix => Box::new(self.0.find_overlapping_no_suffix_iter(hay).map(mt)),
+            Method::Leftmost => Box::new(self.0.leftmost_find_iter(hay).map(mt)),
+        };
+        scribble_stack();
+        it
+    }
+    fn consume_slice(&self, m: Method, hay: Hay, pre: usize, style: u8) -> Consumed {
+        assert!(std::str::from_utf8(AsRef::<[u8]>::as_ref(&hay)).is_ok(), "harness: char-wise haystack must be UTF-8");
+        match m {
+            Method::Find => consume(self.0.find_iter(hay).map(mt), pre, style),
+            Method::Overlapping => consume(self.0.find_overlapping_iter(hay).map(mt), pre, style),
+            Method::NoSuffix => consume(self.0.find_overlapping_no_suffix_iter(hay).map(mt), pre, style),
+            Method::Leftmost => consume(self.0.leftmost_find_iter(hay).map(mt), pre, style),
+        }
+    }
+    fn consume_iter(&self, m: Method, src: ByteSrc<'_>, pre: usize, style: u8) -> Consumed {
+        unsafe {
+            match m {
+                Method::Find => consume(self.0.find_iter_from_iter(src).map(mt), pre, style),
+                Method::Overlapping => consume(self.0.find_overlapping_iter_from_iter(src).map(mt), pre, style),
+                Method::NoSuffix => consume(self.0.find_overlapping_no_suffix_iter_from_iter(src).map(mt), pre, style),
                 Method::Leftmost => panic!("harness: no byte-iterator entry point for leftmost"),
             }
         }
